@@ -19,6 +19,9 @@ CHECKS = {
  "C03": dict(cat="model_checking", tech="TLA+ rule book + search-output trace specification (Tr_SearchOut.tla) validated by TLC against real engine sessions",
    text="Seeded single-search UCI sessions (limit kinds x options x 4 synthetic nets x root classes incl. mate/stalemate/single-move/hmc>=97 roots) are run against the real engine binary; TLC validates every info-pv line and the bestmove/ponder line against the rule book: pv is a path of legal moves from the root, first move among the (search)moves, score range and mate encoding, at most one bound flag, multipv indices bounded and first moves of one report pairwise distinct, bestmove legal and in searchmoves, null move iff no legal move, ponder move legal.",
    note="Trusted: TLC, Chess.tla/Tr_SearchOut.tla, the python UCI driver (tools/uci.py, tools/sessions.py); synthetic nets replace the emptied network file."),
+ "C11": dict(cat="model_checking", tech="TLA+ game-history specification (ChessGame.tla: FIDE repetition keys, 50-move count, console draw-claim state machine) + TLC trace validation of engine scores and console-game command traces",
+   text="spec/ChessGame.tla defines third occurrence (FideKey), 50-move completion and the console game's command/state machine. TLC validates (a) engine traces: for histories with shuffles, hmc 90..110 and pseudo-ep first occurrences, every root move's own exact score (MultiPV over all root moves) must be cp 0 when the move creates a third occurrence or completes 50 moves, mate 1 if it mates; (b) console traces: after every command of random command sequences (moves, draw rep/50 claims, offer/accept, undo/redo, resign, setpos) return value, game state, draw-offer flag and position agree with the specification.",
+   note="Trusted: TLC, Chess.tla/ChessGame.tla, harness/h_game.cpp, python UCI driver. Contempt 0."),
 }
 
 NOT_APPLICABLE = {
